@@ -149,7 +149,10 @@ def c11_filter(v, job, res):
 
 
 def C11(tier):
-    return machine_check("C11", tier, kinds=("entry",), pid_filter=c11_filter, explanation=(
+    from . import specrel
+    def extra(c, jobs, results):
+        specrel.c11_coreachability(c, tier)
+    return machine_check("C11", tier, kinds=("entry",), pid_filter=c11_filter, extra=extra, explanation=(
         "every Partial return has no unread byte and the end of input observed, and the reference is then in a non-rejecting state "
         "(every non-final reference state can reach Complete, checked on the reference itself)"))
 
